@@ -1039,7 +1039,7 @@ def mcdescr_cfg(terms, nts, maxrules, maxrhs, maxlen, useerr, variants, styles, 
 def check_C11(res, scratch, tier, seed):
     builds = [build(scratch, "plain", ("yv_replay",)), build(scratch, "asan", ("yv_replay",))]
     res.cov["trusted_base"] = TB
-    res.cov["rule"] = ("(1) every rule sequence of a small family x translation variants is printed by Descr!PrintDescr in 8 lexical styles (explicit codes; character "
+    res.cov["rule"] = ("(1) every rule sequence of a small family x translation variants is printed by Descr!PrintDescr in 9 lexical styles (explicit codes; character "
                        "constants; free codes from 256; tabs/comments/newlines, repeated declarations with the same code, with no code at all, with a code only in one of the two, omitted default cost and semicolons, alternatives with `|'; "
                        "declarations after the rules); TLC checks that each text follows the manual's grammar (character-level Lex + DescrG through Deriv!IsSentence) and "
                        "prints the text with the raw definition it denotes and that definition's expected observables; the object is defined FROM THE TEXT and must "
@@ -1048,7 +1048,7 @@ def check_C11(res, scratch, tier, seed):
                        "a line number inside the text when they are not valid, on plain and ASan builds; non-trivial = texts with >= 1 rule and a translation or code clause")
     matrix = [(1, 1, 0, 1, 3, 0), (0, 0, 0, 0, 3, 0), (2, 0, 1, 0, 3, 0)]
     fams = [("D2", mcdescr_cfg([1, 2], [11], 2, 2, 3, False, [0, 3, 4, 5], [0, 1, 2, 3, 4, 5])),
-            ("D2r", mcdescr_cfg([1, 2], [11], 2, 2, 2, False, [0, 4], [6, 7])),      # a terminal declared with a code and again without one
+            ("D2r", mcdescr_cfg([1, 2], [11], 2, 2, 2, False, [0, 4], [6, 7, 8])),   # a terminal declared with a code and again without one; character constants above 127
             ("D1e", mcdescr_cfg([1, 2], [11, 12], 1, 3, 2, True, [1, 4, 7, 9], [0, 1, 3]))]
     if tier == "thorough":
         fams += [("D2b", mcdescr_cfg([1, 2], [11, 12], 2, 2, 3, False, [1, 5, 8], [0, 1, 3]))]
